@@ -305,6 +305,18 @@ def run_case(case):
             signal.signal(signal.SIGALRM, _alarm)
             signal.alarm(10)
             pops = []
+            # pre-history: the corners of a near-equal domain - same name, same patches, same joined faces, the
+            # OPPOSITE orientation on every connection (Domain equality ignores the connectivity) - asked for first in
+            # the same interpreter; the answer for D must not depend on it
+            if case.get("dim") == 2 and case.get("conns") and not case.get("mapjoined"):
+                try:
+                    twin = dict(case)
+                    twin["conns"] = [dict(c, o=(-c["o"] if isinstance(c.get("o"), int) else -1)) for c in case["conns"]]
+                    build_join(twin, patches).corners
+                except Exception:  # noqa
+                    pass
+                except Timeout:
+                    pass
             try:
                 out["corners"] = guarded(lambda: corners_with_pops(D, pops), enc_corners)
             finally:
